@@ -15,7 +15,9 @@ import struct
 FAMILIES = ["none", "hdr-field", "forged", "salt-iv", "rehash-block", "resign", "phase", "crossversion",
             "hdr-field", "block", "signature", "pubkey", "sharehash", "blockhash", "flap", "crossfile",
             "hdr-field", "forged", "phase", "encprivkey", "randflip", "truncate", "swapshnum", "delete",
-            "server-fault", "container", "salt-iv", "flap", "rehash-block", "hdr-field"]
+            "server-fault", "container", "salt-iv", "flap", "rehash-block", "hdr-field", "dup-bad-copy"]
+
+MAX_STEPS = 15000     # scheduler steps per read: a read of these sizes needs a few hundred
 
 READ_KINDS = ["dbv-ro-fresh", "dbv-rw-fresh", "dbv-writer", "version-read", "smap-dlv", "smap-copy-dlv"]
 
@@ -24,6 +26,8 @@ def run(ck):
     import allmydata.mutable.publish as publish_mod
     default_seg = publish_mod.DEFAULT_MUTABLE_MAX_SEGMENT_SIZE
     real_os = publish_mod.os
+    from vf.checks._mut import virtual_time_on
+    undo_time = virtual_time_on()
     ck.rule = ("history = (format, k<=N, 1..N+2 servers, MDMF segment size, 1..4 published plaintexts incl. equal "
                "lengths, one- and many-segment, shares below and above the 4000-byte mapupdate read); round = newest "
                "snapshot restored + one adversary family on a subset of shares/servers (+ optionally a second damage "
@@ -51,6 +55,7 @@ def run(ck):
     finally:
         publish_mod.DEFAULT_MUTABLE_MAX_SEGMENT_SIZE = default_seg
         publish_mod.os = real_os
+        undo_time()
     ck.observe("eventual-exceptions", len(env.evq.exceptions))
     ck.require_monitor("membership-oracle", "availability-oracle", "prefix-oracle")
     ck.require_reach("read-ok-despite-damage", "read-failed", "must-succeed", "forged-version-not-delivered",
@@ -185,8 +190,9 @@ class History(object):
         if not self.build():
             return
         rounds = 5 if self.ck.tier == "quick" else 8
+        self.runaway = False
         for r in range(rounds):
-            if self.ck.out_of_time():
+            if self.ck.out_of_time() or self.runaway:
                 break
             fam = FAMILIES[self.counter[0] % len(FAMILIES)]
             self.counter[0] += 1
@@ -234,6 +240,8 @@ class History(object):
                 dmg.note("between-phases:" + sub)
         nreads = 1 if kind.startswith("smap") else rng.choice([1, 1, 2])
         for _ in range(nreads):
+            if self.runaway:
+                break
             self.read(kind, fam, dmg, between)
             between = None
 
@@ -309,6 +317,33 @@ class History(object):
                 dmg.note("s%d sh%d container.%s" % (idx, shnum, what))
             return
 
+        if fam == "dup-bad-copy":
+            # the same share number on two servers, one of the two copies damaged below the signed prefix
+            shares = [x for x in M.disk_shares(g, self.si) if x[2].fmt is not None and x[2].num_segments() > 0]
+            if not shares:
+                raise Skip("no shares")
+            for (idx, shnum, ms) in rng.sample(shares, min(len(shares), rng.choice([1, 1, 2, len(shares)]))):
+                cands = [vs for vs in g.servers if vs.index != idx and shnum not in vs.shares_of(self.si)]
+                if not cands:
+                    continue
+                vs2 = rng.choice(cands)
+                copy = M.MutShare(raw=ms.raw0)
+                copy.container[32:52] = vs2.serverid
+                copy.container[52:84] = self.node.get_write_enabler(vs2.iserver)
+                victim = rng.choice([ms, copy])
+                salt_span, (bs, be) = victim.block_span(rng.randrange(victim.num_segments()))
+                if salt_span and rng.random() < .3:
+                    victim.flip(salt_span[0] + rng.randrange(16), 1 << rng.randrange(8))
+                else:
+                    victim.flip(bs + rng.randrange(max(1, be - bs)), 1 << rng.randrange(8))
+                import os
+                os.makedirs(vs2.sharedir(self.si), exist_ok=True)
+                copy.save(os.path.join(vs2.sharedir(self.si), "%d" % shnum))
+                ms.save()
+                dmg.changed += 1
+                dmg.note("sh%d on s%d and s%d, %s copy damaged" % (shnum, idx, vs2.index,
+                                                                 "original" if victim is ms else "second"))
+            return
         vic, allshares = self.victims()
         # one decision per action so that the same edit hits every victim consistently
         plan = {}
@@ -600,6 +635,10 @@ class History(object):
     def truth(self, dmg):
         """(intact share numbers of the newest version on answering servers, older version visible?)"""
         newest = self.snaps[-1]
+        newest_data = {}
+        for d in newest.values():
+            for shnum, raw in d.items():
+                newest_data[shnum] = (raw[:32], self.M.share_data_of(raw))
         good = set()
         older_raws = set()
         for snap in self.snaps[:-1]:
@@ -617,6 +656,10 @@ class History(object):
                     continue
                 if newest.get(vs.index, {}).get(shnum) == raw:
                     good.add(shnum)
+                elif shnum in newest_data and len(raw) >= 100 and raw[:32] == newest_data[shnum][0] and \
+                        self.M.share_data_of(raw) == newest_data[shnum][1] and \
+                        raw[52:84] == self.node.get_write_enabler(vs.iserver):
+                    good.add(shnum)      # an intact copy in a well-formed container of this server
         return good, older
 
     # ------------------------------------------------------------ reads
@@ -628,6 +671,7 @@ class History(object):
         c2 = g.make_client(k=p["k"], happy=1, n=p["n"], mutable_format=p["fmt"])
         good0, older0 = self.truth(dmg)
         del g.calls[:]
+        steps0 = g.sched.steps
         off, size = 0, None
         streamed = None
         status, res, data = None, None, None
@@ -649,7 +693,7 @@ class History(object):
                 node = self.node
             else:
                 node = c2.create_node_from_uri(self.ro_uri if kind == "dbv-ro-fresh" else self.rw_uri)
-            status, res = g.wait(node.download_best_version(), horizon=4 * 3600.0)
+            status, res = g.wait(node.download_best_version(), horizon=4 * 3600.0, max_steps=MAX_STEPS)
             data = res if status == "ok" else None
         elif kind == "version-read":
             node = c2.create_node_from_uri(self.ro_uri if rng.random() < .6 else self.rw_uri)
@@ -666,7 +710,7 @@ class History(object):
                     if size is not None:
                         size = max(1, min(L - off, size))
                 cons = imm.RecordingConsumer()
-                status, res = g.wait(ver.read(cons, off, size), horizon=4 * 3600.0)
+                status, res = g.wait(ver.read(cons, off, size), horizon=4 * 3600.0, max_steps=MAX_STEPS)
                 data = cons.value() if status == "ok" else None
                 streamed = cons.value()
         else:
@@ -682,8 +726,11 @@ class History(object):
                     use = smap.copy() if kind == "smap-copy-dlv" else smap
                     if kind == "smap-copy-dlv":
                         ck.hit("uncached-reader-read")
-                    status, res = g.wait(node.download_version(use, best), horizon=4 * 3600.0)
+                    status, res = g.wait(node.download_version(use, best), horizon=4 * 3600.0, max_steps=MAX_STEPS)
                     data = res if status == "ok" else None
+        if status in ("ok", "err"):
+            ck.extra["max_scheduler_steps_of_a_completed_read"] = max(
+                g.sched.steps - steps0, ck.extra.get("max_scheduler_steps_of_a_completed_read", 0))
         good1, older1 = self.truth(dmg)
         good = good0 & good1
         older = older0 or older1
@@ -752,7 +799,9 @@ class History(object):
                 if dmg.hung:
                     ck.skip("read-waits-for-a-server-that-never-answers")
                 else:
-                    ck.violation("read-never-completes", "%s neither succeeded nor failed (%s)" % (kind, status), w)
+                    ck.violation("read-never-completes" + ("/bad-copy-of-a-duplicated-share-number-retried-forever"
+                                                           if fam == "dup-bad-copy" else ""),
+                                 "%s neither succeeded nor failed (%s after %d scheduler steps)" % (kind, status, MAX_STEPS), w)
             elif which is not None and which != len(self.published) - 1 and not older:
                 ck.violation("stale-version-although-no-older-share-exists",
                              "delivered published version %d, newest is %d, and the harness left no share of an older "
@@ -761,7 +810,11 @@ class History(object):
             if dmg.hung:
                 ck.skip("read-waits-for-a-server-that-never-answers")
             else:
-                ck.violation("read-never-completes", "%s neither succeeded nor failed (%s)" % (kind, status), w)
+                ck.violation("read-never-completes" + ("/bad-copy-of-a-duplicated-share-number-retried-forever"
+                                                       if fam == "dup-bad-copy" else ""),
+                             "%s neither succeeded nor failed (%s after %d scheduler steps)" % (kind, status, MAX_STEPS), w)
+        if status not in ("ok", "err"):
+            self.runaway = True      # something may still be looping inside the client: abandon this grid
         ck.case(fam, key=(fam, tuple(dmg.desc[:4]), p["fmt"], p["k"], p["n"], tuple(p["sizes"]), kind, off, size),
                 nontrivial=damaged,
                 sample=dict(fmt=p["fmt"], k=p["k"], n=p["n"], nservers=p["nservers"], sizes=p["sizes"], family=fam,
@@ -809,6 +862,8 @@ class History(object):
         newest = self.snaps[-1]
         if errname in ("ConnectionLost", "ConnectionDone"):
             return "connection-lost-on-another-server-aborts-the-read"
+        if errname not in (None, "NotEnoughSharesError", "UnrecoverableFileError"):
+            return "read-aborted-by-%s-despite-k-intact-shares" % errname
         # a share that carries the newest version's signed prefix but an edited (unsigned) offset table?
         ref = None
         for d in newest.values():
